@@ -18,7 +18,7 @@ import inline_snapshot.testing._example as EX
 from harness.support import SUPPORT_NS
 from inline_snapshot.testing import Example
 from vlib import world
-from vlib.common import Cond, PathLog, mkfn, scratch_dir
+from vlib.common import REPO_SRC, Cond, PathLog, mkfn, scratch_dir
 from vlib.world import W
 
 ID = "C19"
@@ -129,7 +129,7 @@ def real_process_corpus():
         cap = Capture()
         with contextlib.redirect_stdout(io.StringIO()), contextlib.redirect_stderr(io.StringIO()):
             e1 = Example({"test_a.py": text}).run_inline([f"--inline-snapshot={flags}"], changed_files=cap, raises=Capture(), reported_categories=Capture())
-            e2 = Example({"test_a.py": text}).run_pytest([f"--inline-snapshot={flags}"], changed_files=Capture(), returncode=Capture(), env={"PYTHONPATH": "/repo/src"})
+            e2 = Example({"test_a.py": text}).run_pytest([f"--inline-snapshot={flags}"], changed_files=Capture(), returncode=Capture(), env={"PYTHONPATH": REPO_SRC})
         rc, out, after, _ = world.real_pytest({"test_a.py": text}, [f"--inline-snapshot={flags}"])
         a, b, c = e1.files["test_a.py"], e2.files["test_a.py"], after["test_a.py"]
         PathLog.record(text + flags, nontrivial=True, sample={"flags": flags, "identical": a == b == c, "run_inline": world.snapshot_arg_sources(a), "run_pytest": world.snapshot_arg_sources(b), "real_pytest": world.snapshot_arg_sources(c)})
